@@ -947,13 +947,21 @@ struct ShWorld { World *W; GrothVSSHE *vsP, *vsV; HooghSchoenmakersSkoricVillega
 	{
 		with_coins(seed, 13000 + n * 89 + l + 7919 * sp, [&]() {
 			BarnettSmartVTMF_dlog *A = w.A;
-			if (sep == 0)
+			if (sep == 0 || sep == 4)
 			{
 				vsP = new GrothVSSHE(n, A->p, A->q, A->k, A->g, A->h, l, w.psize, w.qsize);
 				std::stringstream g;
 				vsP->PublishGroup(g);
 				ctor_text = g.str();
-				vsV = new GrothVSSHE(n, g, l, w.psize, w.qsize);
+				if (sep == 0)
+					vsV = new GrothVSSHE(n, g, l, w.psize, w.qsize);
+				else
+				{
+					// sep 4: the verifier's instance is constructed INDEPENDENTLY over the same group (its own random generators);
+					// only the common SetupGenerators_publiccoin(a) below makes the two commitment keys equal (needs acoin != 0)
+					if (!acoin) throw std::runtime_error("harness: independent construction needs the public coin");
+					vsV = new GrothVSSHE(n, A->p, A->q, A->k, A->g, A->h, l, w.psize, w.qsize);
+				}
 			}
 			else
 			{
@@ -1700,6 +1708,24 @@ inline std::vector<Spec> specs(int purpose, const std::string &tier, const std::
 									[L, n, extra, p, proto, mode, ac]() { return make_shuffle(shworld(world(L.ps, L.qs), n + extra, L.le, ac), proto, mode, n, p); });
 							}
 					}
+				}
+	}
+	// ---- independent construction on both sides + public coin, with MORE generators than the fast-exponentiation tables hold
+	//      (TMCG_MAX_FPOWM_N = 256): N = 257 and 260, stacks of 2 cards (quick) and of N cards (thorough); all three proof forms
+	//      (added after seeded change C03-5: generators beyond the 256th were not re-derived from the coin)
+	if (want("groth") && !c5)
+	{
+		LeCfg L = les[0];
+		for (size_t N = 257; N <= 260; N += 3)
+			for (int full = 0; full < (thorough ? 2 : 1); full++)
+				for (int mode = 0; mode < 3; mode++)
+				{
+					if (!le_ok(L.le, mode)) continue;
+					if (!thorough && mode == 1) continue;
+					size_t n = full ? N : 2;
+					std::vector<size_t> p = perm_of(n, 1);
+					add_spec(v, std::string("vsshe") + drv::str(mode) + ":indep:le" + drv::str(L.le) + ":N" + drv::str(N) + ":n" + drv::str(n) + ":a1", 1,
+						[L, N, n, p, mode]() { return make_shuffle(shworld(world(L.ps, L.qs), N, L.le, 1, 4), 0, mode, n, p); });
 				}
 	}
 	if (want("commit"))
